@@ -2,7 +2,7 @@
 //! the harness view, the case alphabet and the bodies that call the library.
 #![allow(dead_code)]
 use fast_image_resize as fir;
-use fir::images::{TypedCroppedImageMut, TypedImage, TypedImageRef};
+use fir::images::{TypedCroppedImage, TypedCroppedImageMut, TypedImage, TypedImageRef};
 use fir::pixels::{F32, U16x2, U8x4, U8};
 use fir::{CpuExtensions, FilterType, ImageView, ImageViewMut, MulDiv, PixelTrait, ResizeAlg, ResizeOptions, Resizer};
 
@@ -272,6 +272,13 @@ impl DstKind {
     }
 }
 
+/// Source container override: 0 = alternate borrowed/owned with the destination width (default),
+/// 1 = TypedImageRef, 2 = owned TypedImage, 3 = cropped view of a larger TypedImageRef,
+/// 4 = cropped view of a larger owned TypedImage
+pub static SRC_KIND: std::sync::atomic::AtomicUsize = std::sync::atomic::AtomicUsize::new(0);
+/// placement of a cropped source inside its parent: (left, top, right margin, bottom margin)
+pub const SRC_PLACE: (u32, u32, u32, u32) = (2, 3, 1, 2);
+
 /// placement of a cropped destination inside its parent: (left, top, right margin, bottom margin)
 pub const CROP_PLACE: (u32, u32, u32, u32) = (3, 1, 2, 4);
 
@@ -281,10 +288,30 @@ pub fn run_body<P: Px>(c: &Case, dst_kind: &DstKind, sentinel: u8, expose: Optio
     let (sw, sh) = src_size(c);
     let mut seed = 0xC08u64 ^ ((c.dw as u64) << 32) ^ ((c.dh as u64) << 8) ^ c.body as u64;
     let src_px: Vec<P> = (0..sw as usize * sh as usize).map(|_| P::gen(&mut seed)).collect();
-    // the source is a borrowed reference or an owned TypedImage (different split_by_* implementations)
-    let owned_src = c.dw % 2 == 1;
+    // the source is a borrowed reference or an owned TypedImage (different split_by_* implementations),
+    // or - when SRC_KIND asks for it - a cropped view of a larger parent of either family
+    let sk = match SRC_KIND.load(std::sync::atomic::Ordering::Relaxed) {
+        0 => 1 + (c.dw % 2) as usize,
+        k => k,
+    };
     let src_ref = TypedImageRef::<P>::new(sw, sh, &src_px).unwrap();
     let src_own = TypedImage::<P>::from_pixels(sw, sh, src_px.clone()).unwrap();
+    let (ml, mt, mr, mb) = SRC_PLACE;
+    let (spw, sph) = (sw + ml + mr, sh + mt + mb);
+    let parent_px: Vec<P> = if sk >= 3 {
+        let mut v: Vec<P> = (0..spw as usize * sph as usize).map(|_| P::gen(&mut seed)).collect();
+        for y in 0..sh as usize {
+            for x in 0..sw as usize {
+                v[(y + mt as usize) * spw as usize + x + ml as usize] = src_px[y * sw as usize + x];
+            }
+        }
+        v
+    } else {
+        vec![]
+    };
+    let (ppw, pph) = if sk >= 3 { (spw, sph) } else { (0, 0) };
+    let par_ref = TypedImageRef::<P>::new(ppw, pph, &parent_px).unwrap();
+    let par_own = TypedImage::<P>::from_pixels(ppw, pph, parent_px.clone()).unwrap();
     let mut rz = Resizer::new();
     unsafe { rz.set_cpu_extensions(be_of(c.be)) };
     let mut md = MulDiv::new();
@@ -305,12 +332,16 @@ pub fn run_body<P: Px>(c: &Case, dst_kind: &DstKind, sentinel: u8, expose: Optio
     }
     macro_rules! call {
         ($dst:expr) => {{
-            match (c.body, owned_src) {
-                (Body::MulAlpha, false) => md.multiply_alpha_typed(&src_ref, $dst).unwrap(),
-                (Body::MulAlpha, true) => md.multiply_alpha_typed(&src_own, $dst).unwrap(),
+            match (c.body, sk) {
                 (Body::DivAlphaInplace, _) => md.divide_alpha_inplace_typed($dst).unwrap(),
-                (_, false) => rz.resize_typed(&src_ref, $dst, &o).unwrap(),
-                (_, true) => rz.resize_typed(&src_own, $dst, &o).unwrap(),
+                (Body::MulAlpha, 1) => md.multiply_alpha_typed(&src_ref, $dst).unwrap(),
+                (Body::MulAlpha, 2) => md.multiply_alpha_typed(&src_own, $dst).unwrap(),
+                (Body::MulAlpha, 3) => md.multiply_alpha_typed(&TypedCroppedImage::from_ref(&par_ref, ml, mt, sw, sh).unwrap(), $dst).unwrap(),
+                (Body::MulAlpha, _) => md.multiply_alpha_typed(&TypedCroppedImage::from_ref(&par_own, ml, mt, sw, sh).unwrap(), $dst).unwrap(),
+                (_, 1) => rz.resize_typed(&src_ref, $dst, &o).unwrap(),
+                (_, 2) => rz.resize_typed(&src_own, $dst, &o).unwrap(),
+                (_, 3) => rz.resize_typed(&TypedCroppedImage::from_ref(&par_ref, ml, mt, sw, sh).unwrap(), $dst, &o).unwrap(),
+                (_, _) => rz.resize_typed(&TypedCroppedImage::from_ref(&par_own, ml, mt, sw, sh).unwrap(), $dst, &o).unwrap(),
             }
         }};
     }
